@@ -62,6 +62,15 @@ def push_rev(stack, i, m, ds):
     return push_rev(stack, i, m, ds[1:]) + [(i, m, ds[0])]
 
 
+@C.spec([('stack', 'Stack'), ('i', 'Int'), ('m', 'Mode'), ('ds', 'ObjList')], 'Stack')
+def push_fwd(stack, i, m, ds):
+    """stack.extend((i, m, d) for d in ds)   (not used by the unchanged code; exists so that an edit that drops
+    `reversed` stays inside the subset and fails its obligations instead of becoming undecided)"""
+    if not ds:
+        return stack
+    return push_fwd(stack + [(i, m, ds[0])], i, m, ds[1:])
+
+
 # -- well-formedness: what may occur where -------------------------------------------------------
 @C.spec([('d', 'Obj')], 'Bool')
 def wf(d):
